@@ -49,40 +49,26 @@ fn lang_tag_matches_table() {
     kani::cover!(ilc == lc && !subs.is_empty());
 }
 
-// @harness name=lang_unknown_is_und kind=Pc tier=thorough props=C17 desc="for every u16 code whose primary language is not in the table (decided by a linear scan over the 117 entries, independent of the library's binary search) tag() is 'und'; and a known primary language with an unlisted sublanguage yields exactly the bare language tag"
+// (lang_unknown_is_und -- every code over a linear scan of the 117-entry table -- needed ~40 GB in CBMC and was
+// removed; Language::tag is proved in Verus relative to the table, contracts/language.vt, with the table's
+// sortedness checked by lang_table_sorted below)
+
+// @harness name=lang_table_sorted kind=Pc tier=quick props=C17 desc="TABLE FACT used by the Verus proof of Language::tag (axiom_lang_table_sorted): for all positions a < b (symbolic = universally quantified) the language table is strictly increasing in its numeric key, and so is the sublanguage list of every language i -- the precondition under which std documents binary_search_by_key"
 #[kani::proof]
-#[kani::unwind(120)]
-#[kani::stub(alloc::fmt::format, stub_format)]
-fn lang_unknown_is_und() {
-    let code: u16 = kani::any();
-    let lc = code & 0x3ff;
-    let sc = code >> 10;
-    let mut found: usize = usize::MAX;
-    let mut i = 0;
-    while i < LANGUAGES.len() {
-        if LANGUAGES[i].0 == lc {
-            found = i;
-        }
-        i += 1;
-    }
-    let lang = Language::from_code(code);
-    let t = lang.tag();
-    if found == usize::MAX {
-        assert!(is_und(t));
-    } else {
-        let (_, ilt, subs) = LANGUAGES[found];
-        let mut listed = false;
-        let mut j = 0;
-        while j < subs.len() {
-            if subs[j].0 == sc {
-                listed = true;
-            }
-            j += 1;
-        }
-        if !listed {
-            assert!(same_str(t, ilt));
-        }
-    }
+#[kani::unwind(3)]
+fn lang_table_sorted() {
+    let a: usize = kani::any();
+    let b: usize = kani::any();
+    kani::assume(a < b && b < LANGUAGES.len());
+    assert!(LANGUAGES[a].0 < LANGUAGES[b].0);
+    let i: usize = kani::any();
+    kani::assume(i < LANGUAGES.len());
+    let subs = LANGUAGES[i].2;
+    let c: usize = kani::any();
+    let d: usize = kani::any();
+    kani::assume(c < d && d < subs.len());
+    assert!(subs[c].0 < subs[d].0);
+    kani::cover!(d == 3);
 }
 
 // @harness name=lang_wellknown_ids kind=Pc tier=quick props=C17 desc="the Windows identifiers named in the statement carry their standard tags: 1033 en-US, 2057 en-GB, 1036 fr-FR, 3084 fr-CA, 1031 de-DE, 1041 ja-JP (checked on the bytes of the returned tag)"
